@@ -517,17 +517,30 @@ func defineIntersectionOrDictionaryType() {
 		lexer.TokenBraceOpen,
 		func(p *parser, rightBindingPower int, left ast.Type) (result ast.Type, err error, done bool) {
 
-			// Perform a lookahead
+			// Perform a lookbehind and a lookahead
 
 			current := p.current
 			cursor := p.tokens.Cursor()
 
+			// In case there is a space before the `{` token,
+			// the type is *not* considered a restricted type, e.g. `fun() {}`.
+			// The parsers of some types skip the whitespace that follows,
+			// e.g. the function type parser, while looking for the optional return type.
+			var previous lexer.Token
+			if cursor >= 2 {
+				p.tokens.Revert(cursor - 2)
+				previous = p.tokens.Next()
+				p.tokens.Revert(cursor)
+			}
+
 			// Skip the `{` token.
 			p.next()
 
-			// In case there is a space, the type is *not* considered a restricted type.
+			// In case there is a space after the `{` token,
+			// the type is also *not* considered a restricted type.
 			// The buffered tokens are replayed to allow them to be re-parsed.
-			if p.current.Is(lexer.TokenSpace) {
+			if previous.Is(lexer.TokenSpace) ||
+				p.current.Is(lexer.TokenSpace) {
 				p.current = current
 				p.tokens.Revert(cursor)
 
